@@ -25,6 +25,8 @@ type envPoint struct {
 	pos    int
 	nopts  int
 	chosen int
+	n      int   // answer given
+	err    error
 }
 
 type envReader struct {
@@ -36,6 +38,8 @@ type envReader struct {
 	points   []envPoint
 	zeroRun  int
 	reads    int
+	failed   bool // a fault was injected: the reader keeps failing (faults are sticky, as in the property)
+	faultAt  int
 	diverged bool
 	menuBuf  []envAnswer
 }
@@ -100,6 +104,9 @@ func (r *envReader) Read(p []byte) (int, error) {
 	if len(p) == 0 {
 		return 0, nil
 	}
+	if r.failed {
+		return 0, errInjected
+	}
 	m := r.menu(len(p))
 	c := 0
 	i := len(r.points)
@@ -110,8 +117,12 @@ func (r *envReader) Read(p []byte) (int, error) {
 			c = 0
 		}
 	}
-	r.points = append(r.points, envPoint{asked: len(p), pos: r.pos, nopts: len(m), chosen: c})
 	a := m[c]
+	r.points = append(r.points, envPoint{asked: len(p), pos: r.pos, nopts: len(m), chosen: c, n: a.n, err: a.err})
+	if a.err == errInjected {
+		r.failed = true
+		r.faultAt = r.pos + a.n
+	}
 	if a.n == 0 && a.err == nil {
 		r.zeroRun++
 	} else {
